@@ -2,7 +2,9 @@ package sim
 
 import (
 	"fmt"
+	"os"
 
+	"github.com/hugelgupf/p9/linux"
 	rc "github.com/hugelgupf/p9/zzverif/refcodec"
 	"github.com/hugelgupf/p9/zzverif/simfs"
 	"github.com/hugelgupf/p9/zzverif/simrt"
@@ -65,7 +67,25 @@ func runC15(rcx *RunCtx) {
 				if c.Seq-base == pl.at {
 					if pl.panic {
 						firedPanic++
-						return &simfs.Fault{Panic: "injected panic in " + c.Method}
+						// what a backend panics with: a string, an error,
+						// an errno, a runtime error
+						var pv interface{}
+						switch simrt.Choose(5) {
+						case 1:
+							pv = fmt.Errorf("injected panic in %s", c.Method)
+						case 2:
+							pv = linux.ENOSPC
+						case 3:
+							pv = os.ErrNotExist
+						case 4:
+							var m map[string]int
+							pv = func() (r interface{}) {
+								defer func() { r = recover() }()
+								m["x"] = 1 // a genuine runtime.Error
+								return nil
+							}()
+						}
+						return &simfs.Fault{Panic: "injected panic in " + c.Method, PanicVal: pv}
 					}
 					fired++
 					return &simfs.Fault{Err: pl.err}
@@ -197,7 +217,7 @@ func init() {
 		Run:  runC15,
 		Directed: func(string) int { return 160 },
 		Quick:    64000, Thorough: 4500000, QuickSecs: 60, ThorSecs: 1500,
-		Rule:  "directed: one fault at every backend call index 0..79 of a 40-request random history, as an error and as a panic; random: 10-60 request histories (all request types, fids biased to bound ones) with 1-3 faults at tape-chosen call indices, each an error drawn from {linux.Errno, syscall.Errno, os.ErrNotExist, %w-wrapped, *os.PathError, opaque} or (1/3) a panic; after every faulted request the same fids, the root, a create+rename+unlink in the root, and four fids of a second connection are exercised. Oracle: C04 session model for the reply (errno of the error per the extraction rule, EFAULT for a panic) and for the fid table (unchanged after an error except clunk/remove); every probe answered at quiescence (leaked lock => unanswered); Files obtained during a request that failed with an error are closed when it is answered; no panic reaches the top of a goroutine. Non-trivial = at least one fault actually fired.",
+		Rule:  "directed: one fault at every backend call index 0..79 of a 40-request random history, as an error and as a panic; random: 10-60 request histories (all request types, fids biased to bound ones) with 1-3 faults at tape-chosen call indices, each an error drawn from {linux.Errno, syscall.Errno, os.ErrNotExist, %w-wrapped, *os.PathError, opaque} or (1/3) a panic (with a string, an error, an errno, os.ErrNotExist or a runtime error as its value); after every faulted request the same fids, the root, a create+rename+unlink in the root, and four fids of a second connection are exercised. Oracle: C04 session model for the reply (errno of the error per the extraction rule, EFAULT for a panic) and for the fid table (unchanged after an error except clunk/remove); every probe answered at quiescence (leaked lock => unanswered); Files obtained during a request that failed with an error are closed when it is answered; no panic reaches the top of a goroutine. Non-trivial = at least one fault actually fired.",
 		Assume: []string{"after a panic only containment is asserted (the statement promises table and handle cleanliness for errors)", "faults are not injected into Close and Renamed (Close errors are ignored by contract, Renamed may not fail)"},
 		Real:   []string{"p9.Server", "p9 handlers / path tree / fid table", "p9 wire codec", "linux.ExtractErrno"},
 		Stub:   []string{"transport (simnet pipes)", "backend tree (simfs) with fault plan", "raw 9P peer (refcodec)"},
